@@ -99,8 +99,14 @@ def check(ctx: Ctx) -> None:
     guards, stores = guards_and_stores(sp, set(sp.params) - {'self'})
     pstores = [s for s in stores if s[1] in PARAMS]
     ctx.instance('C02.a', 'OFDM.set_parameters')
-    ok = len(guards) >= 3 and {s[1] for s in pstores} == set(PARAMS) and all(s[0] > max(g[0] for g in guards) for s in pstores)
-    ctx.obligation('C02.a', 'OFDM.set_parameters', ok, {'guards': [g[1] for g in guards], 'stores': [s[2] for s in pstores]})
+    # path rule (sa/commit.py): no raise is reachable after a parameter was stored - unless the stores are rolled back by an
+    # `except BaseException: <restore the snapshot>; raise` around the checks
+    from ..commit import commit_then_raise
+    late = commit_then_raise(M, sp, cls)
+    n_raises = sum(1 for n in walk_no_nested(sp.node) if isinstance(n, ast.Raise) and n.exc is not None)
+    ok = n_raises >= 1 and {s[1] for s in pstores} == set(PARAMS) and not late
+    ctx.obligation('C02.a', 'OFDM.set_parameters', ok, {'guards': [g[1] for g in guards], 'stores': [s[2] for s in pstores], 'raising_checks': n_raises,
+                                                        'raise_after_store': [norm(r[0])[:50] for r in late]})
     if not ok:
         ctx.violation('C02.a', 'OFDM.set_parameters', 'a parameter is stored before the last raising guard (guards %s, stores %s): '
                       'a rejected call leaves a half-updated, invalid configuration'
